@@ -263,6 +263,179 @@ def angle_sites() -> tuple[list[tuple[str, str, int]], dict]:
     return sites, info
 
 
+# ---------------------------------------------------------------------------------------------- constructor dispatch
+ARG_FORMS = ('FNumber', 'FSameClass', 'FOtherAngle', 'FVec', 'FFrozenVec', 'FIterable')
+_LAST_CTOR_ROWS: list[tuple[str, str, str]] = []       # set by translate() before result_kinds() runs
+_ALL_OBJECT_FORMS = {'FSameClass', 'FOtherAngle', 'FVec', 'FFrozenVec', 'FIterable'}
+
+
+def _forms_of_class_name(name: str, own: str, in_new: bool, first: str) -> set[str] | None:
+    """The argument forms (of ARG_FORMS) whose objects are instances of the class called `name`, seen from the
+    constructor of class `own`; None when the name is not known."""
+    bare = name[3:] if name.startswith('Py_') else name
+    if in_new and name == first:
+        return {'FSameClass'}
+    if bare in ('int', 'float', 'bool', 'Real', 'Number', 'SupportsFloat'):
+        return {'FNumber'}
+    if bare == own:
+        return {'FSameClass'}
+    if bare in ('Angle', 'FrozenAngle'):
+        return {'FOtherAngle'}
+    if bare == 'AngleBase':
+        return {'FSameClass', 'FOtherAngle'}
+    if bare == 'VecBase':
+        return {'FVec', 'FFrozenVec'}
+    if bare == 'Vec':
+        return {'FVec'}
+    if bare == 'FrozenVec':
+        return {'FFrozenVec'}
+    if bare in ('Iterable', 'Iterator', 'Collection', 'Sequence'):
+        return set(_ALL_OBJECT_FORMS) if bare == 'Iterable' else None
+    if bare in ('str', 'bytes', 'MatrixBase', 'Matrix', 'FrozenMatrix', 'dict', 'NoneType'):
+        return set()
+    return None
+
+
+def _form_test(t: ast.AST, form: str, param: str, own: str, in_new: bool, first: str) -> bool | None:
+    """Value of a dispatch test for an argument of the given form (three-valued)."""
+    if isinstance(t, ast.UnaryOp) and isinstance(t.op, ast.Not):
+        v = _form_test(t.operand, form, param, own, in_new, first)
+        return None if v is None else not v
+    if isinstance(t, ast.BoolOp):
+        vals = [_form_test(x, form, param, own, in_new, first) for x in t.values]
+        if isinstance(t.op, ast.And):
+            return False if any(v is False for v in vals) else None if any(v is None for v in vals) else True
+        return True if any(v is True for v in vals) else None if any(v is None for v in vals) else False
+    if isinstance(t, ast.Call) and isinstance(t.func, ast.Name) and t.func.id == 'isinstance' and len(t.args) == 2 and not t.keywords \
+            and isinstance(t.args[0], ast.Name) and t.args[0].id == param:
+        c = t.args[1]
+        if isinstance(c, ast.Name) and c.id in _CONSTS:
+            c = _CONSTS[c.id]
+        names = c.elts if isinstance(c, ast.Tuple) else [c]
+        acc: set[str] = set()
+        for n in names:
+            nm = n.id if isinstance(n, ast.Name) else n.attr if isinstance(n, ast.Attribute) else None
+            fs = _forms_of_class_name(nm, own, in_new, first) if nm else None
+            if fs is None:
+                return None
+            acc |= fs
+        return form in acc
+    return None
+
+
+def angle_ctor_rows(tree: ast.Module) -> tuple[list[tuple[str, str, str]], dict]:
+    """Angle.__init__ / FrozenAngle.__new__ run symbolically once per argument form (Num/AngleCtor.v): which branch the
+    form takes and what that branch does - hands the argument back, or stores three values whose kinds are classified
+    as for the store-site census (a slot copied unchanged counts as a copy only when it is read from the dispatched
+    argument itself).  Anything not understood on the path of a form is AUnknown for that form (fail closed)."""
+    _CONSTS.clear(); _CONSTS.update(_module_consts(tree))
+    _HELPERS.clear(); _HELPERS.update(_single_return_helpers(tree))
+    rows: list[tuple[str, str, str]] = []
+    ctors: list[str] = []
+    notes: dict[str, str] = {}
+    for own in ('Angle', 'FrozenAngle'):
+        cdef = next((c for c in tree.body if isinstance(c, ast.ClassDef) and c.name == own), None)
+        if cdef is None:
+            raise TranslateError(f'class {own} not found')
+        defs = [f for f in cdef.body if isinstance(f, ast.FunctionDef) and f.name in ('__new__', '__init__') and not _is_stub(f)]
+        cname = f'{own}.' + '+'.join(f.name for f in defs) if defs else f'{own}.<inherited constructor>'
+        ctors.append(cname)
+        if len(defs) != 1:
+            rows += [(cname, fm, 'AUnknown') for fm in ARG_FORMS]
+            notes[cname] = 'the class does not define exactly one of __new__ / __init__'
+            continue
+        fn = defs[0]
+        in_new = fn.name == '__new__'
+        params = [a.arg for a in fn.args.posonlyargs + fn.args.args]
+        if len(params) < 2 or fn.args.vararg or fn.args.kwarg:
+            rows += [(cname, fm, 'AUnknown') for fm in ARG_FORMS]
+            notes[cname] = 'signature not understood'
+            continue
+        first, param = params[0], params[1]
+        env = _single_bindings(fn)
+
+        def kind_of(v: ast.AST) -> str:
+            k = classify_rhs(v, env)
+            if k == 'CopyFromAngle':
+                w = v
+                for _ in range(6):
+                    if isinstance(w, ast.Name) and w.id in env:
+                        w = env[w.id]
+                if not (isinstance(w, ast.Attribute) and isinstance(w.value, ast.Name) and w.value.id == param):
+                    return 'Other'          # a slot of some other object: nothing is known about it here
+            return k
+
+        def run(stmts: list[ast.stmt], form: str, obj: str | None, st: dict[str, str]):
+            """-> (action or None for fall-through, obj, stores)"""
+            for s_ in _nodoc(stmts):
+                if isinstance(s_, ast.If):
+                    v = _form_test(s_.test, form, param, own, in_new, first)
+                    if v is None:
+                        return 'AUnknown', obj, st
+                    act, obj, st = run(s_.body if v else s_.orelse, form, obj, st)
+                    if act is not None:
+                        return act, obj, st
+                    continue
+                if isinstance(s_, ast.Return):
+                    if s_.value is None or (isinstance(s_.value, ast.Constant) and s_.value.value is None):
+                        return (('AStores', st) if not in_new else 'AUnknown'), obj, st
+                    if in_new and isinstance(s_.value, ast.Name):
+                        if s_.value.id == param:
+                            return 'AReturnArg', obj, st
+                        if s_.value.id == obj:
+                            return ('AStores', st), obj, st
+                    return 'AUnknown', obj, st
+                if isinstance(s_, (ast.Assign, ast.AnnAssign)):
+                    if isinstance(s_, ast.AnnAssign) and s_.value is None:
+                        continue
+                    tg = s_.targets if isinstance(s_, ast.Assign) else [s_.target]
+                    if len(tg) != 1:
+                        return 'AUnknown', obj, st
+                    t = tg[0]
+                    pairs: list[tuple[ast.AST, ast.AST]] = []
+                    if isinstance(t, (ast.Tuple, ast.List)):
+                        if isinstance(s_.value, (ast.Tuple, ast.List)) and len(s_.value.elts) == len(t.elts) \
+                                and not any(isinstance(e, ast.Starred) for e in t.elts + s_.value.elts):
+                            pairs = list(zip(t.elts, s_.value.elts))
+                        elif all(isinstance(e, ast.Name) and e.id not in (param, obj, first) for e in t.elts):
+                            continue            # unpacking into plain locals
+                        else:
+                            return 'AUnknown', obj, st
+                    else:
+                        pairs = [(t, s_.value)]
+                    st = dict(st)
+                    for tt, vv in pairs:
+                        if isinstance(tt, ast.Name):
+                            if tt.id in (param, first):
+                                return 'AUnknown', obj, st          # the dispatched argument is rebound
+                            if isinstance(vv, ast.Call) and isinstance(vv.func, ast.Attribute) and vv.func.attr == '__new__':
+                                if obj is not None or not in_new:
+                                    return 'AUnknown', obj, st
+                                obj = tt.id
+                            elif tt.id == obj:
+                                return 'AUnknown', obj, st
+                            continue
+                        if isinstance(tt, ast.Attribute) and isinstance(tt.value, ast.Name) and tt.value.id == obj and tt.attr in FIELDS:
+                            st[tt.attr] = kind_of(vv)
+                            continue
+                        return 'AUnknown', obj, st
+                    continue
+                if isinstance(s_, ast.Pass):
+                    continue
+                return 'AUnknown', obj, st                      # loops, try, with, raise, calls as statements, nested defs ...
+            return None, obj, st
+
+        for fm in ARG_FORMS:
+            act, _, st = run(fn.body, fm, None if in_new else first, {})
+            if act is None:
+                act = ('AStores', st) if not in_new else 'AUnknown'
+            if isinstance(act, tuple):
+                st = act[1]
+                act = f'(AStores {st["_pitch"]} {st["_yaw"]} {st["_roll"]})' if all(f in st for f in FIELDS) else 'AUnknown'
+            rows.append((cname, fm, act))
+    return rows, {'angle_ctor_notes': notes, 'angle_ctors': ctors}
+
+
 # ---------------------------------------------------------------------------------------------- angle creations
 ANGLE_CTORS = {'Angle', 'Py_Angle', 'FrozenAngle', 'Py_FrozenAngle'}
 ANGLE_CLASSES = ('AngleBase', 'Angle', 'FrozenAngle')
@@ -1305,6 +1478,363 @@ def method_table(tree: ast.Module) -> list[tuple[str, str]]:
     return [(cls, f.name) for cls, fns in _class_functions(tree).items() for f in fns]
 
 
+# ---------------------------------------------------------------------------------------------- __format__ with a spec
+class _SpecUnk(Exception):
+    pass
+
+
+def format_spec_cfgs(tree: ast.Module) -> dict:
+    """VecBase.__format__ / AngleBase.__format__ evaluated symbolically into, per component, a text term
+         fmt(slot, +0.0?) | rstrip(chars, T) | if(conds, T, T) | lit
+    (locals substituted, `if c: x = f(x)` read as a conditional, conditional expressions alike) and then classified into the
+    flags of Num/SpecStrip.v spec_cfg.  All three components must be the family's slots in order with the same flags,
+    joined by single spaces; an empty spec must return str(self).  Anything else: recognised = false, all flags off."""
+    out: dict = {}
+    off = {'guard_dot': False, 'guard_no_exp': False, 'strip_zeros': False, 'strip_dot': False, 'dot_outside': False, 'neg_zero_fix': False}
+    for cname, fam in (('VecBase', FAMILY_SLOTS['VecBase']), ('AngleBase', FAMILY_SLOTS['AngleBase'])):
+        key = 'vec' if cname == 'VecBase' else 'angle'
+        cdef = next((c for c in tree.body if isinstance(c, ast.ClassDef) and c.name == cname), None)
+        fn = next((f for f in (cdef.body if cdef else []) if isinstance(f, ast.FunctionDef) and f.name == '__format__'), None)
+        res = dict(off, recognised=False, empty_is_str=False, adds_zero=False, why='')
+        out[key] = res
+        if fn is None or len(fn.args.args) != 2:
+            res['why'] = '__format__ not found'
+            continue
+        me, spec = fn.args.args[0].arg, fn.args.args[1].arg
+
+        def cond(t: ast.AST, env: dict) -> frozenset:
+            if isinstance(t, ast.BoolOp) and isinstance(t.op, ast.And):
+                return frozenset().union(*[cond(v, env) for v in t.values])
+            if isinstance(t, ast.Compare) and len(t.ops) == 1 and isinstance(t.left, ast.Constant) and isinstance(t.left.value, str) \
+                    and isinstance(t.ops[0], (ast.In, ast.NotIn)):
+                return frozenset([('in' if isinstance(t.ops[0], ast.In) else 'notin', t.left.value, text(t.comparators[0], env))])
+            if isinstance(t, ast.Compare) and len(t.ops) == 1 and isinstance(t.ops[0], ast.Eq) and isinstance(t.comparators[0], ast.Constant):
+                return frozenset([('eq', t.comparators[0].value, text(t.left, env))])
+            if isinstance(t, ast.UnaryOp) and isinstance(t.op, ast.Not) and isinstance(t.operand, ast.BoolOp) and isinstance(t.operand.op, ast.Or):
+                # not (a or b)  ==  (not a) and (not b)
+                return frozenset().union(*[cond(ast.UnaryOp(op=ast.Not(), operand=v, lineno=t.lineno), env) for v in t.operand.values])
+            if isinstance(t, ast.UnaryOp) and isinstance(t.op, ast.Not):
+                inner = cond(t.operand, env)
+                if len(inner) == 1:
+                    (k, ch, x), = inner
+                    if k in ('in', 'notin'):
+                        return frozenset([('notin' if k == 'in' else 'in', ch, x)])
+            raise _SpecUnk(f'condition not understood (line {t.lineno})')
+
+        def text(e: ast.AST, env: dict):
+            if isinstance(e, ast.Name) and e.id in env:
+                return env[e.id]
+            if isinstance(e, ast.Constant) and isinstance(e.value, str):
+                return ('lit', e.value)
+            if isinstance(e, ast.IfExp):
+                return ('if', cond(e.test, env), text(e.body, env), text(e.orelse, env))
+            if isinstance(e, ast.Call) and isinstance(e.func, ast.Attribute) and e.func.attr == 'rstrip' and len(e.args) == 1 \
+                    and not e.keywords and isinstance(e.args[0], ast.Constant) and isinstance(e.args[0].value, str):
+                return ('rstrip', e.args[0].value, text(e.func.value, env))
+            if isinstance(e, ast.Call) and isinstance(e.func, ast.Name) and e.func.id == 'format' and len(e.args) == 2 and not e.keywords \
+                    and isinstance(e.args[1], ast.Name) and e.args[1].id == spec:
+                v = e.args[0]
+                az = False
+                if isinstance(v, ast.BinOp) and isinstance(v.op, ast.Add):
+                    zero = lambda z: isinstance(z, ast.Constant) and type(z.value) is float and z.value == 0.0
+                    if zero(v.right):
+                        v, az = v.left, True
+                    elif zero(v.left):
+                        v, az = v.right, True
+                if isinstance(v, ast.Attribute) and isinstance(v.value, ast.Name) and v.value.id == me and v.attr in fam:
+                    return ('fmt', v.attr, az)
+            raise _SpecUnk(f'text expression not understood (line {e.lineno})')
+
+        def block(stmts: list[ast.stmt], env: dict) -> dict:
+            env = dict(env)
+            for st in _nodoc(stmts):
+                if isinstance(st, ast.Assign) and len(st.targets) == 1 and isinstance(st.targets[0], ast.Name):
+                    env[st.targets[0].id] = text(st.value, env)
+                elif isinstance(st, ast.If):
+                    c = cond(st.test, env)
+                    a, b = block(st.body, env), block(st.orelse, env)
+                    for nm in set(a) | set(b):
+                        if a.get(nm) != b.get(nm):
+                            if nm not in a or nm not in b:
+                                raise _SpecUnk('a name bound on one branch only')
+                            env[nm] = ('if', c, a[nm], b[nm])
+                else:
+                    raise _SpecUnk(f'statement not understood (line {st.lineno})')
+            return env
+
+        def classify(t) -> dict:
+            f = dict(off)
+            if t[0] == 'if' and t[1] == frozenset([('eq', '-0', t[3])]) and t[2] == ('lit', '0'):
+                f['neg_zero_fix'] = True
+                t = t[3]
+            if t[0] == 'rstrip' and t[1] == '.' and t[2][0] == 'if':
+                f['dot_outside'] = True
+                t = t[2]
+            base = t
+            if t[0] == 'if':
+                conds, a, base = t[1], t[2], t[3]
+                if base[0] != 'fmt':
+                    raise _SpecUnk('the untouched branch is not the formatted component')
+                chain = []
+                while a[0] == 'rstrip':
+                    chain.append(a[1])
+                    a = a[2]
+                if a != base:
+                    raise _SpecUnk('the stripped branch does not start from the formatted component')
+                chain.reverse()                      # order of application
+                if chain == ['0', '.']:
+                    f['strip_zeros'] = f['strip_dot'] = True
+                elif chain == ['0']:
+                    f['strip_zeros'] = True
+                elif chain:
+                    raise _SpecUnk(f'strip chain {chain!r}')
+                atoms = set(conds)
+                if any(x != base for _, _, x in atoms):
+                    raise _SpecUnk('a guard looks at another text')
+                kinds = {(k, ch) for k, ch, _ in atoms}
+                if ('in', '.') in kinds:
+                    f['guard_dot'] = True
+                if ('notin', 'e') in kinds and ('notin', 'E') in kinds:
+                    f['guard_no_exp'] = True
+                if kinds - {('in', '.'), ('notin', 'e'), ('notin', 'E')}:
+                    raise _SpecUnk(f'guard atoms {sorted(kinds)!r}')
+            elif t[0] != 'fmt':
+                raise _SpecUnk('component is not the formatted slot')
+            f['slot'], f['adds_zero'] = base[1], base[2]
+            return f
+
+        try:
+            body = _nodoc(fn.body)
+            # `if not spec: return str(self)`
+            if body and isinstance(body[0], ast.If) and not body[0].orelse and len(body[0].body) == 1 and isinstance(body[0].body[0], ast.Return):
+                t, r = body[0].test, body[0].body[0].value
+                empty = (isinstance(t, ast.UnaryOp) and isinstance(t.op, ast.Not) and isinstance(t.operand, ast.Name) and t.operand.id == spec) or \
+                    (isinstance(t, ast.Compare) and len(t.ops) == 1 and isinstance(t.ops[0], ast.Eq) and isinstance(t.left, ast.Name) and t.left.id == spec
+                     and isinstance(t.comparators[0], ast.Constant) and t.comparators[0].value == '')
+                is_str = isinstance(r, ast.Call) and not r.keywords and (
+                    (isinstance(r.func, ast.Name) and r.func.id == 'str' and len(r.args) == 1 and isinstance(r.args[0], ast.Name) and r.args[0].id == me) or
+                    (isinstance(r.func, ast.Attribute) and r.func.attr == '__str__' and isinstance(r.func.value, ast.Name) and r.func.value.id == me and not r.args))
+                if empty and is_str:
+                    res['empty_is_str'] = True
+                    body = body[1:]
+            if not body or not isinstance(body[-1], ast.Return) or not isinstance(body[-1].value, ast.JoinedStr):
+                raise _SpecUnk('no f-string returned')
+            env = block(body[:-1], {})
+            parts = []
+            for v in body[-1].value.values:
+                if isinstance(v, ast.Constant):
+                    parts.append(('sep', v.value))
+                elif isinstance(v, ast.FormattedValue) and v.conversion == -1 and v.format_spec is None:
+                    parts.append(('comp', classify(text(v.value, env))))
+                else:
+                    raise _SpecUnk('f-string part not understood')
+            if [p[0] for p in parts] != ['comp', 'sep', 'comp', 'sep', 'comp'] or any(p[1] != ' ' for p in parts if p[0] == 'sep'):
+                raise _SpecUnk('not three components joined by single spaces')
+            comps = [p[1] for p in parts if p[0] == 'comp']
+            if tuple(c['slot'] for c in comps) != tuple(fam):
+                raise _SpecUnk('components are not the three slots in order')
+            flags = [{k: v for k, v in c.items() if k != 'slot'} for c in comps]
+            if flags[0] != flags[1] or flags[1] != flags[2]:
+                raise _SpecUnk('the three components are treated differently')
+            res.update(flags[0])
+            res['recognised'] = True
+        except _SpecUnk as e:
+            res['why'] = str(e)
+    return out
+
+
+# ---------------------------------------------------------------------------------------------- __eq__ / __ne__
+def eq_shapes(tree: ast.Module) -> tuple[list[tuple[str, list[tuple[str, str]]]], dict]:
+    """__eq__ of VecBase / AngleBase / MatrixBase on an operand of the same family (SM/FrozenEq.v): the branch
+    `if isinstance(other, <Base>)` must return a conjunction of per-slot tests `abs(other._s - self._s) < T` / `<= T` (either
+    operand order, T a numeric constant) or `self._s == other._s`; anything else is CUnknown for that slot.  __ne__, when the
+    class defines it, must be the slot-wise negation joined by `or` (flag ne_is_negation)."""
+    from fractions import Fraction
+    rows: list[tuple[str, list[tuple[str, str]]]] = []
+    info: dict = {}
+    ne_ok = True
+    NEG = {ast.Lt: ast.GtE, ast.LtE: ast.Gt, ast.Eq: ast.NotEq}
+    for base in ('VecBase', 'AngleBase', 'MatrixBase'):
+        cdef = next((c for c in tree.body if isinstance(c, ast.ClassDef) and c.name == base), None)
+        fam = FAMILY_SLOTS[base]
+
+        def tests(fname: str, joiner) -> list[tuple[str, type, str]] | None:
+            """[(slot, comparison operator class, tolerance as a Coq Q or '')] of the same-family branch, None if absent"""
+            fn = next((f for f in (cdef.body if cdef else []) if isinstance(f, ast.FunctionDef) and f.name == fname), None)
+            if fn is None or len(fn.args.args) != 2:
+                return None
+            me, ot = fn.args.args[0].arg, fn.args.args[1].arg
+            br = next((st for st in _nodoc(fn.body) if isinstance(st, ast.If) and isinstance(st.test, ast.Call) and isinstance(st.test.func, ast.Name)
+                       and st.test.func.id == 'isinstance' and len(st.test.args) == 2 and isinstance(st.test.args[0], ast.Name) and st.test.args[0].id == ot
+                       and isinstance(st.test.args[1], ast.Name) and st.test.args[1].id in (base, 'Py_' + base)), None)
+            if br is None or len(br.body) != 1 or not isinstance(br.body[0], ast.Return) or br.body[0].value is None:
+                return []
+            e = br.body[0].value
+            parts = e.values if isinstance(e, ast.BoolOp) and isinstance(e.op, joiner) else [e]
+            out = []
+            for t in parts:
+                slot, op, tol = '?', type(None), ''
+                if isinstance(t, ast.Compare) and len(t.ops) == 1:
+                    l, r = t.left, t.comparators[0]
+                    sl = lambda x, who: x.attr if isinstance(x, ast.Attribute) and isinstance(x.value, ast.Name) and x.value.id == who and x.attr in fam else None
+                    if isinstance(t.ops[0], (ast.Eq, ast.NotEq)):
+                        a, b = sl(l, me) or sl(l, ot), sl(r, ot) or sl(r, me)
+                        if a and a == b and {getattr(l.value, 'id', None), getattr(r.value, 'id', None)} == {me, ot}:
+                            slot, op = a, type(t.ops[0])
+                    elif isinstance(l, ast.Call) and isinstance(l.func, ast.Name) and l.func.id == 'abs' and len(l.args) == 1 and isinstance(l.args[0], ast.BinOp) \
+                            and isinstance(l.args[0].op, ast.Sub):
+                        x, y = l.args[0].left, l.args[0].right
+                        a, b = sl(x, me) or sl(x, ot), sl(y, ot) or sl(y, me)
+                        c = _CONSTS.get(r.id) if isinstance(r, ast.Name) else r
+                        if a and a == b and {getattr(x.value, 'id', None), getattr(y.value, 'id', None)} == {me, ot} \
+                                and isinstance(c, ast.Constant) and type(c.value) in (int, float):
+                            q = Fraction(repr(c.value))
+                            slot, op, tol = a, type(t.ops[0]), f'(QArith_base.Qmake ({q.numerator})%Z {q.denominator}%positive)'
+                out.append((slot, op, tol))
+            return out
+        eq = tests('__eq__', ast.And)
+        cmps: list[tuple[str, str]] = []
+        for slot, op, tol in (eq or []):
+            k = f'CTol true {tol}' if op is ast.Lt and tol else f'CTol false {tol}' if op is ast.LtE and tol else 'CExact' if op is ast.Eq and not tol else 'CUnknown'
+            cmps.append((slot, k))
+        if not cmps:
+            cmps = [('?', 'CUnknown')]
+        rows.append((base, cmps))
+        ne = tests('__ne__', ast.Or)
+        if ne is not None:                   # defined: must negate __eq__ slot by slot
+            ok = eq is not None and len(ne) == len(eq) and all(a[0] == b[0] and a[2] == b[2] and NEG.get(a[1]) is b[1] for a, b in zip(eq, ne))
+            info.setdefault('ne_is_negation', {})[base] = bool(ok)
+            ne_ok = ne_ok and bool(ok)
+    info['ne_is_negation_all'] = ne_ok
+    return rows, info
+
+
+# ---------------------------------------------------------------------------------------------- __hash__
+_PURE_HASH_BUILTINS = {'hash', 'round', 'tuple', 'abs', 'float', 'int'}
+
+
+def inplace_methods(tree: ast.Module) -> list[tuple[str, str]]:
+    """(defining class, name) of every in-place operator method of the nine classes, exec() templates included
+    (`__iOP__` stands for the operators a template is instantiated for) and class-body aliases `__iadd__ = f`."""
+    pat = re.compile(r'__i(' + '|'.join(OPERATOR_NAMES) + r'|OP)__\Z')
+    out: list[tuple[str, str]] = []
+    for cname, fns in _class_functions(tree).items():
+        for f in fns:
+            if pat.match(f.name) and not _is_stub(f):
+                out.append((cname, f.name))
+    for c in tree.body:
+        if isinstance(c, ast.ClassDef) and c.name in CLASSES:
+            for st in c.body:
+                if isinstance(st, (ast.Assign, ast.AnnAssign)) and st.value is not None \
+                        and not (isinstance(st.value, ast.Constant) and st.value.value is None):
+                    for t in _targets(st):
+                        if isinstance(t, ast.Name) and pat.match(t.id):
+                            out.append((c.name, t.id))
+    return sorted(set(out))
+
+
+def hash_kinds(tree: ast.Module) -> tuple[list[tuple[str, str]], dict]:
+    """What `hash(obj)` is for each of the six concrete classes (SM/FrozenHash.v hkind), following Python's rules:
+    the first class of the MRO whose body binds __hash__ decides; a body that defines __eq__ without binding __hash__
+    makes the class unhashable; with neither anywhere it is object.__hash__ (identity).  A `def __hash__` is HSlots l
+    when its result is an expression over slots of self (directly or through a property whose getter returns the
+    slot), constants and pure builtins only; anything else is HUnknown."""
+    classes = {c.name: c for c in tree.body if isinstance(c, ast.ClassDef)}
+    out: list[tuple[str, str]] = []
+    info: dict[str, str] = {}
+
+    def getters(mro: list[ast.ClassDef]) -> dict[str, str]:
+        g: dict[str, str] = {}
+        for c in reversed(mro):
+            for f in c.body:
+                if isinstance(f, ast.FunctionDef) and any(isinstance(d, ast.Name) and d.id == 'property' for d in f.decorator_list):
+                    body = _nodoc(f.body)
+                    if len(body) == 1 and isinstance(body[0], ast.Return) and isinstance(body[0].value, ast.Attribute) \
+                            and isinstance(body[0].value.value, ast.Name) and body[0].value.value.id == f.args.args[0].arg:
+                        g[f.name] = body[0].value.attr
+                    else:
+                        g.pop(f.name, None)
+        return g
+
+    def of_def(f: ast.FunctionDef, mro: list[ast.ClassDef], fam: tuple[str, ...]) -> str:
+        body = _nodoc(f.body)
+        if not f.args.args or len(body) == 0 or not isinstance(body[-1], ast.Return) or body[-1].value is None:
+            return 'HUnknown'
+        if any(not isinstance(b, (ast.Assign, ast.AnnAssign)) for b in body[:-1]):
+            return 'HUnknown'
+        me = f.args.args[0].arg
+        env = _single_bindings(f)
+        e = body[-1].value
+        for _ in range(6):
+            e = _subst(e, env)
+        props = getters(mro)
+        slots: list[str] = []
+        ok = True
+
+        def walk(n: ast.AST) -> None:
+            nonlocal ok
+            if isinstance(n, ast.Attribute):
+                if isinstance(n.value, ast.Name) and n.value.id == me and isinstance(n.ctx, ast.Load):
+                    sl = n.attr if n.attr in fam else props.get(n.attr)
+                    if sl in fam:
+                        if sl not in slots:
+                            slots.append(sl)
+                        return
+                ok = False
+                return
+            if isinstance(n, ast.Call):
+                if not (isinstance(n.func, ast.Name) and n.func.id in _PURE_HASH_BUILTINS) or n.keywords:
+                    ok = False
+                    return
+                for a in n.args:
+                    walk(a)
+                return
+            if isinstance(n, (ast.GeneratorExp, ast.ListComp)) and len(n.generators) == 1 and not n.generators[0].ifs and not n.generators[0].is_async \
+                    and isinstance(n.generators[0].target, ast.Name) and isinstance(n.generators[0].iter, (ast.Tuple, ast.List)):
+                # `round(v, 6) for v in (self._x, self._y, self._z)`: the element expression once per item
+                for item in n.generators[0].iter.elts:
+                    walk(_subst(n.elt, {n.generators[0].target.id: item}))
+                return
+            if isinstance(n, ast.Name):
+                ok = False          # any free name (self as a whole, id, a global) is not a slot
+                return
+            if isinstance(n, (ast.Tuple, ast.BinOp, ast.UnaryOp, ast.Constant, ast.operator, ast.unaryop, ast.expr_context)):
+                for ch in ast.iter_child_nodes(n):
+                    walk(ch)
+                return
+            ok = False
+        walk(e)
+        return 'HSlots [' + '; '.join(_s(x) for x in slots) + ']' if ok else 'HUnknown'
+
+    for cname, base in CONCRETE.items():
+        mro = [classes[n] for n in (cname, base) if n in classes]
+        if len(mro) != 2:
+            raise TranslateError(f'class {cname} or {base} not found')
+        fam = FAMILY_SLOTS[base]
+        kind = None
+        for c in mro:
+            bound = None
+            has_eq = False
+            for st in c.body:
+                if isinstance(st, ast.FunctionDef) and st.name == '__hash__' and not _is_stub(st):
+                    bound = of_def(st, mro, fam)
+                elif isinstance(st, ast.FunctionDef) and st.name == '__eq__':
+                    has_eq = True
+                elif isinstance(st, (ast.Assign, ast.AnnAssign)):
+                    for t in _targets(st):
+                        if isinstance(t, ast.Name) and t.id == '__hash__':
+                            v = st.value
+                            bound = 'HUnhashable' if isinstance(v, ast.Constant) and v.value is None else 'HUnknown'
+            if bound is None and has_eq:
+                bound = 'HUnhashable'
+            if bound is not None:
+                kind = bound
+                info[cname] = f'{c.name}: {bound}'
+                break
+        out.append((cname, kind or 'HIdentity'))
+    return out, {'hash_resolution': info}
+
+
 # ---------------------------------------------------------------------------------------------- result kinds
 CONCRETE = {'Vec': 'VecBase', 'FrozenVec': 'VecBase', 'Angle': 'AngleBase', 'FrozenAngle': 'AngleBase',
             'Matrix': 'MatrixBase', 'FrozenMatrix': 'MatrixBase'}
@@ -1430,6 +1960,12 @@ def result_kinds(tree: ast.Module) -> tuple[list[tuple[str, str, str]], dict]:
         # class: the object it returns is the receiver itself or one created during the run
         if cls.startswith('Frozen') and table.get('__new__') in ('RUnknown', 'RArg'):
             k = sym.ctor_kind(cls)
+            if k is None and cls == 'FrozenAngle':
+                # the dispatch table of the constructor by argument form (angle_ctor_rows): the argument itself for an
+                # object of the class, a new object for every other form
+                acts = {fm: a for c, fm, a in _LAST_CTOR_ROWS if c == 'FrozenAngle.__new__'}
+                if len(acts) == len(ARG_FORMS) and all(a.startswith('(AStores') for fm, a in acts.items() if fm != 'FSameClass'):
+                    k = 'RArgFrozen' if acts['FSameClass'] == 'AReturnArg' else 'RFresh' if acts['FSameClass'].startswith('(AStores') else None
             if k is not None:
                 table['__new__'] = k
                 info.setdefault('kinds_from_symbolic_run', []).append(f'{cls}.__new__')
@@ -1941,6 +2477,9 @@ def translate() -> tuple[str, dict]:
     sites, info = angle_sites()
     creations, cinfo = angle_creations(tree)
     info.update(cinfo)
+    ctor_rows, crinfo = angle_ctor_rows(tree)
+    info.update(crinfo)
+    _LAST_CTOR_ROWS[:] = ctor_rows
     cfg = format_cfg(tree)
     pcfg = parse_cfg(tree)
     strs = str_templates(tree)
@@ -1955,6 +2494,12 @@ def translate() -> tuple[str, dict]:
     info.update(rinfo)
     shapes, sinfo = copy_shapes(tree)
     info.update(sinfo)
+    hashes, hinfo = hash_kinds(tree)
+    inplace = inplace_methods(tree)
+    eqs, einfo = eq_shapes(tree)
+    info.update(einfo)
+    specs = format_spec_cfgs(tree)
+    info.update(hinfo)
     # __str__: three numbers separated by single spaces
     def plain3(p, sep, fam, pre='', post=''):
         want = ([['lit', pre]] if pre else []) + [['num', fam[0]], list(sep), ['num', fam[1]], list(sep), ['num', fam[2]]] + ([['lit', post]] if post else [])
@@ -1969,7 +2514,7 @@ def translate() -> tuple[str, dict]:
     lines = [
         '(* GENERATED by translate/c05_sites.py from src/srctools/math.py. Do not edit. *)',
         'From Coq Require Import ZArith NArith List String.',
-        'From SV Require Import Num.Dec6 Num.AngleSites Num.VecText SM.FrozenOps SM.FrozenCopy SM.FrozenCopyValue.',
+        'From SV Require Import Num.Dec6 Num.AngleSites Num.AngleCtor Num.SpecStrip Num.VecText SM.FrozenOps SM.FrozenCopy SM.FrozenCopyValue SM.FrozenHash SM.FrozenEq.',
         'Import ListNotations.', 'Open Scope string_scope.',
         '(* every store to an _pitch/_yaw/_roll slot: (file:Class.function:slot, classification of the stored value) *)',
         'Definition angle_sites : list (string * rhs) := [',
@@ -1978,6 +2523,11 @@ def translate() -> tuple[str, dict]:
         '(* every expression that creates an Angle/FrozenAngle object: (function, how its slots get written) *)',
         'Definition angle_creations : list (string * creation) := [',
         ';\n'.join(f'  ({_s(w)}, {k})' for w, k, _ in creations),
+        '].',
+        '(* Angle.__init__ / FrozenAngle.__new__ run once per form of the first argument: (constructor, form, what that path does) *)',
+        'Definition angle_ctors : list string := [' + '; '.join(_s(c) for c in crinfo['angle_ctors']) + '].',
+        'Definition angle_ctor_rows : list ctor_row := [',
+        ';\n'.join(f'  ({_s(c)}, {fm}, {a})' for c, fm, a in ctor_rows),
         '].',
         f'Definition to_angle_stores_all_slots : bool := {b(cinfo["stores_all_slots_on_every_path"]["MatrixBase._to_angle"])}.',
         f'Definition angle_init_stores_all_slots : bool := {b(cinfo["stores_all_slots_on_every_path"]["Angle.__init__"])}.',
@@ -2005,13 +2555,34 @@ def translate() -> tuple[str, dict]:
         'Definition copy_shapes : list copy_entry := [',
         ';\n'.join(f'  ({_s(c)}, {_s(m)}, {_s(rc)}, {t})' for c, m, rc, t in shapes),
         '].',
+        '(* hash(obj) for the six concrete classes after Python\'s resolution of __hash__ / __eq__ *)',
+        'Definition hash_kinds : list hash_row := [',
+        ';\n'.join(f'  ({_s(c)}, {k})' for c, k in hashes),
+        '].',
+        '(* __format__ with a user spec: what happens to each component after format(value, spec) *)',
+        f'Definition format_spec_recognised : bool := {b(specs["vec"]["recognised"] and specs["angle"]["recognised"])}.',
+        f'Definition format_spec_empty_is_str : bool := {b(specs["vec"]["empty_is_str"] and specs["angle"]["empty_is_str"])}.',
+    ] + [
+        f'Definition {k}_spec_cfg : spec_cfg := {{| guard_dot := {b(c["guard_dot"])}; guard_no_exp := {b(c["guard_no_exp"])}; strip_zeros := {b(c["strip_zeros"])}; '
+        f'strip_dot := {b(c["strip_dot"])}; dot_outside := {b(c["dot_outside"])}; spec_neg_zero_fix := {b(c["neg_zero_fix"])} |}}.'
+        for k, c in (('vec', specs['vec']), ('angle', specs['angle']))
+    ] + [
+        '(* == on two objects of one family: comparison per slot; != is its negation *)',
+        'Definition eq_shapes : list eq_row := [',
+        ';\n'.join(f'  ({_s(c)}, [' + '; '.join(f'({_s(sl)}, {k})' for sl, k in cm) + '])' for c, cm in eqs),
+        '].',
+        f'Definition ne_is_negation_of_eq : bool := {b(einfo["ne_is_negation_all"])}.',
+        '(* every in-place operator method: (defining class, name) *)',
+        'Definition inplace_rows : list inplace_row := [',
+        ';\n'.join(f'  ({_s(c)}, {_s(m)})' for c, m in inplace),
+        '].',
         '(* methods whose result the census treats as a new object because of their NAME, with the kind read from their returns *)',
         'Definition fresh_by_name : list (string * rkind) := [',
         ';\n'.join(f'  ({_s(w)}, {k})' for w, k in fresh),
         '].',
         '',
     ]
-    side = {'fresh_by_name': [list(x) for x in fresh], 'copy_shapes': [list(x) for x in shapes], 'angle_sites': [list(s) for s in sites], 'angle_creations': [list(c) for c in creations], 'format_float': cfg, 'parse_vec_str': pcfg, 'str_templates': strs,
+    side = {'eq_shapes': [[c, [list(x) for x in cm]] for c, cm in eqs], 'format_spec': specs, 'inplace_rows': [list(r) for r in inplace], 'hash_kinds': [list(h) for h in hashes], 'angle_ctor_rows': [list(r) for r in ctor_rows], 'fresh_by_name': [list(x) for x in fresh], 'copy_shapes': [list(x) for x in shapes], 'angle_sites': [list(s) for s in sites], 'angle_creations': [list(c) for c in creations], 'format_float': cfg, 'parse_vec_str': pcfg, 'str_templates': strs,
             'mut_events': [list(m) for m in muts], 'result_kinds': [list(r) for r in results], 'n_methods': len(meths), **info,
             'digests': {'parse_vec_str': _digest(tree, 'parse_vec_str'), 'format_float': cfg['digest']}}
     return '\n'.join(lines), side
